@@ -73,7 +73,8 @@ func arrayDefineOwnProperty(obj *object, name string, descriptor property, throw
 		}
 		newLength := arrayUint32(obj.runtime, newLengthValue)
 		descriptor.value = uint32Value(newLength)
-		if newLength > length {
+		if newLength >= length {
+			// 15.4.5.1 step 3.f: nothing to truncate, also for the current length.
 			return objectDefineOwnProperty(obj, name, descriptor, throw)
 		}
 		if !lengthProperty.writable() {
